@@ -75,3 +75,7 @@ ENTRIES += [
     B('regress-hostnames-of-every-queued-url', "            hostnames = (URLInfo.parse(url).hostname for url in added_urls\n                         if url in start_urls)", "            hostnames = (URLInfo.parse(url).hostname for url in added_urls)", 'C02-D5', 'wpull/database/sqltable.py'),
     N('hostnames-start-test-inline', "            hostnames = (URLInfo.parse(url).hostname for url in added_urls\n                         if url in start_urls)", "            roots = start_urls\n            hostnames = [URLInfo.parse(url).hostname for url in added_urls if url in roots]", 'wpull/database/sqltable.py'),
 ]
+
+ENTRIES += [
+    B('regress-directory-glob-whole-path', "        return fnmatch.fnmatchcase(test_path, base_path + '*')", "        return fnmatch.fnmatchcase(test_path, base_path)", 'C02-D2', 'wpull/url.py'),
+]
